@@ -456,6 +456,9 @@ class Scripted(BaseStrategy):
         return True
 
     def process_new_market(self, market, market_book):
+        lrr = self.rec.scn.get("line_results", {}).get(market.market_id)
+        if lrr is not None:
+            market.context["line_range_result"] = lrr
         self.rec.delivered.append([self.name, market.market_id, ms_of(market_book.publish_time_epoch), ms_of(datetime.datetime.utcnow()), "new"])
         inj = self.spec.get("raise", {}).get("%s|%d|new" % (market.market_id, ms_of(market_book.publish_time_epoch)))
         if inj:
@@ -506,11 +509,20 @@ def _mk_order_type(a, market):
             time_in_force=a.get("tif"),
             min_fill_size=a.get("min_fill"),
             price_ladder_definition=a.get("ladder", "CLASSIC"),
+            line_range_info=_line_info(a),
         )
     elif t == "LIMIT_ON_CLOSE":
         return LimitOnCloseOrder(liability=a["size"], price=a["price"])
     else:
         return MarketOnCloseOrder(liability=a["size"])
+
+
+def _line_info(a):
+    if a.get("ladder") != "LINE_RANGE":
+        return None
+    from betfairlightweight.resources.bettingresources import LineRangeInfo
+    lo, hi, step = a.get("line", [0.5, 200.5, 1.0])
+    return LineRangeInfo(marketUnit="Runs", interval=step, minUnitValue=lo, maxUnitValue=hi)
 
 
 def _mver(a, market):
@@ -863,6 +875,7 @@ def instrument(rec, patches):
                     newly_removed=newly,
                     minbsp={c.username: pence(c.min_bsp_liability) for c in rec.flumine.clients},
                     active=bool(market.blotter.active),
+                    ncleared_flags=len(market.orders_cleared) + len(market.market_cleared),
                 )
         return __call__
 
@@ -880,7 +893,7 @@ def instrument(rec, patches):
             class _SDT:  # emits the "upd" step right after the clock moved
                 def __call__(_self, pt):
                     real_sdt(pt)
-                    rec.step("upd", mid=mb.market_id, pt=ms_of(mb.publish_time_epoch), status=mb.status, k=rec.upd_count[mb.market_id], nbooks=len(event.event))
+                    rec.last_upd = rec.step("upd", mid=mb.market_id, pt=ms_of(mb.publish_time_epoch), status=mb.status, k=rec.upd_count[mb.market_id], nbooks=len(event.event), will_close=False)
 
                 def __getattr__(_self, name):
                     return getattr(real_sdt, name)
@@ -926,11 +939,59 @@ def instrument(rec, patches):
 
     def mk_close(orig):
         def _process_close_market(self, event):
+            n_ev = len(rec.events)
+            n_cc = len(rec.closed_calls)
+            mb = event.event
+            known_before = mb.market_id in self.markets.markets
             try:
                 return orig(self, event)
             finally:
-                mb = event.event
-                rec.step("close", mid=mb.market_id, pt=ms_of(mb.publish_time_epoch), rstat={str(r.selection_id): r.status for r in mb.runners}, nwin=mb.number_of_winners or 0, mtype=mb.market_definition.market_type or "NA", ewd=pence(mb.market_definition.each_way_divisor) if mb.market_definition.each_way_divisor else 0)
+                rec.ledger.pop(mb.market_id, None)  # the middleware drops its per-market state on closure
+                settle = {}
+                for lab, o in rec.visible_orders().items():
+                    if o.market_id != mb.market_id:
+                        continue
+                    ot = o.order_type
+                    lineorder = ot.ORDER_TYPE.name == "LIMIT" and ot.price_ladder_definition == "LINE_RANGE"
+                    settle[lab] = {
+                        "profit": rec._safe(lambda: o.profit),
+                        "rstatus": o.runner_status or "NA",
+                        "mtype": o.market_type or "NA",
+                        "ewd": int(round(o.each_way_divisor)) if o.each_way_divisor else 1,
+                        "ndh": int(o.number_of_dead_heat_winners or 1),
+                        "lineorder": bool(lineorder),
+                        "line": pence(o.average_price_matched) if lineorder else 0,
+                        "lineresult": pence(o.line_range_result) if o.line_range_result is not None else -1,
+                        "client": o.client.username if o.client else "",
+                    }
+                cleared = []
+                meta = []
+                for ev in rec.events[n_ev:]:
+                    if ev[0] == "cleared_markets":
+                        cleared.extend(ev[1])
+                    elif ev[0] == "cleared_orders_meta":
+                        meta.append(ev[1])
+                clients = [c.username for c in self.clients]
+                if getattr(rec, "last_upd", None) is not None and rec.last_upd["a"]["mid"] == mb.market_id:
+                    # the closure was processed far enough to reach the strategies / logging
+                    rec.last_upd["a"]["will_close"] = known_before or mb.market_id in self.markets.markets
+                rec.step(
+                    "close",
+                    mid=mb.market_id,
+                    pt=ms_of(mb.publish_time_epoch),
+                    rstat={str(r.selection_id): r.status for r in mb.runners},
+                    nwin=mb.number_of_winners or 0,
+                    mtype=mb.market_definition.market_type or "NA",
+                    settle=settle,
+                    cleared=[{"client": clients[i] if i < len(clients) else "?", "profit": c["profit"], "commission": c["commission"], "betCount": c["betCount"], "marketId": c["marketId"]} for i, c in enumerate(cleared)],
+                    cleared_meta=meta,
+                    rates={c.username: int(round(c.commission_base * 10000)) for c in self.clients},
+                    closed_calls=[cc[:2] for cc in rec.closed_calls[n_cc:]],
+                    known_before=known_before,
+                    nclosed_events=len([1 for ev in rec.events[n_ev:] if ev[0] == "closed_market"]),
+                    subscribed=[st.name for st in self.strategies if mb.streaming_unique_id in st.stream_ids or st.market_filter == {}],
+                    mw_has=any(mb.market_id in getattr(mw, "markets", {}) for mw in self._market_middleware),
+                )
         return _process_close_market
 
     patches.wrap(FlumineSimulation, "_process_close_market", mk_close)
@@ -1021,12 +1082,12 @@ def run_scenario(scn, keep_dir=None, snapshots=True, extra_setup=None):
         instrument(rec, patches)
         strategies = []
         for s in scn["strategies"]:
-            mf = {
+            mf = {} if s.get("empty_filter") else {
                 "markets": [paths[i] for i in s.get("markets", range(len(paths)))],
                 "event_processing": bool(cfg["event_processing"]),
                 "listener_kwargs": dict(cfg.get("listener_kwargs", {})),
             }
-            if cfg.get("event_groups"):
+            if cfg.get("event_groups") and mf:
                 mf["event_groups"] = cfg["event_groups"]
             st = Scripted(
                 rec,
